@@ -66,7 +66,7 @@ static int cmp_cb(const void * a, const void * b, void * priv)
     const long long i = idx_of(a), j = idx_of(b);
     const int d = (int)*(const unsigned char *)a - (int)*(const unsigned char *)b;
     const int sg = (d > 0) - (d < 0);
-    (void)priv;
+    h_check_priv(priv);
     if (i == -1) logev(2, j, 0); else logev(0, i, j);
     g_cmpcalls++;
     switch (g_cmpmode) {
@@ -280,10 +280,10 @@ static void run_case(const struct h_case * c)
                 g_draws = realloc(g_draws, (g_ndraws + 1) * sizeof(*g_draws));
                 for (k = 0; k < (int)g_ndraws; k++) g_draws[k] = h_int(l, k + 2);
             }
-            if (isvec) __cstl_vector_sort(&v, cmp_cb, NULL, swap_cb, sel);
-            else cstl_raw_array_sort(arr, n, es, cmp_cb, NULL, swap_cb, g_scratch, sel);
+            if (isvec) __cstl_vector_sort(&v, cmp_cb, H_COOKIE, swap_cb, sel);
+            else cstl_raw_array_sort(arr, n, es, cmp_cb, H_COOKIE, swap_cb, g_scratch, sel);
         } else if (strcmp(op, "sortd") == 0 && isvec) {
-            cstl_vector_sort(&v, cmp_cb, NULL);
+            cstl_vector_sort(&v, cmp_cb, H_COOKIE);
         } else if (strcmp(op, "reverse") == 0) {
             if (isvec) __cstl_vector_reverse(&v, swap_cb);
             else cstl_raw_array_reverse(arr, n, es, swap_cb, g_scratch);
@@ -294,11 +294,11 @@ static void run_case(const struct h_case * c)
             ret_void = 0;
             if (strcmp(op, "search") == 0) {
                 if (!sorted) { printf("precond\n"); return; }
-                ret = isvec ? cstl_vector_search(&v, g_probe, cmp_cb, NULL)
-                            : cstl_raw_array_search(arr, n, es, g_probe, cmp_cb, NULL);
+                ret = isvec ? cstl_vector_search(&v, g_probe, cmp_cb, H_COOKIE)
+                            : cstl_raw_array_search(arr, n, es, g_probe, cmp_cb, H_COOKIE);
             } else {
-                ret = isvec ? cstl_vector_find(&v, g_probe, cmp_cb, NULL)
-                            : cstl_raw_array_find(arr, n, es, g_probe, cmp_cb, NULL);
+                ret = isvec ? cstl_vector_find(&v, g_probe, cmp_cb, H_COOKIE)
+                            : cstl_raw_array_find(arr, n, es, g_probe, cmp_cb, H_COOKIE);
             }
         } else {
             printf("badop %s\n", l->w[0]);
